@@ -298,6 +298,16 @@ def check_module(case, ctx):
     init = None
     if not case["default_init"]:
         init = (K * math.exp(case["s0"]),) + tuple(case["v0"] for _ in ul.default_init_state[1:])
+    if case["seed"] % 2 == 1:
+        # the modules are long-lived objects: a first simulation (other seed, same or other number of paths) has already
+        # been priced before the one that is checked - "uses that derivative's ... simulated state" means the current one
+        with ctx.sut("C07/module/simulate"):
+            torch.manual_seed(case["seed"] + 7)
+            deriv.simulate(n_paths=case["n_paths"] + (case["seed"] // 2) % 2, init_state=init)
+        with ctx.sut("C07/module/price"):
+            mod.price()
+            mod2.price()
+        ctx.cls("module:reused-after-resimulate")
     with ctx.sut("C07/module/simulate"):
         torch.manual_seed(case["seed"])
         deriv.simulate(n_paths=case["n_paths"], init_state=init)
